@@ -219,3 +219,12 @@ package shellfuncsfile
 //@   on call template.Template.Execute(t, w, d) (e): assert(t == perlTemplate && nRepl == 2 && mapStr(d, "FuncName") == strings.TrimSuffix(filepath.Base(name), filepath.Ext(name)) && mapStr(d, "LeadComments") == lead && mapStr(d, "PerlUU") == r2 && boxes(w, ret), "template_gets_name_lead_comments_and_encoded_text"); execErr = e != nil; nExec++
 //@   ensures read_error_reported: imp(rdErr, err != nil)
 //@   ensures uniform_template: imp(!rdErr && !execErr, err == nil && nExec == 1)
+
+// FromShell: shell files are passed through exactly as read.
+//@ func FromShell(name, r) (res, err)
+//@   props C17
+//@   ghost n int = 0
+//@   ghost got []byte = nil
+//@   ghost gerr error = nil
+//@   on call io.ReadAll(rr) (b, e): assert(rr == r && n == 0, "reads_the_file_given"); got = b; gerr = e; n++
+//@   ensures passed_through_unchanged: n == 1 && res == got && err == gerr
